@@ -450,6 +450,19 @@ func (e *Env) EngineStuck(what string) {
 	if !livenessProps[e.PropID] {
 		panic(harnessError{what})
 	}
+	e.emergency(e.PropID+"/engine-does-not-stop", what)
+}
+
+// EngineSpins is called by the watchdog (another goroutine, real time) when an engine goroutine has been
+// runnable for the whole watchdog period. Returns if the property does not promise liveness.
+func (e *Env) EngineSpins(what string) {
+	if !livenessProps[e.PropID] {
+		return
+	}
+	e.emergency(e.PropID+"/engine-spins", what)
+}
+
+func (e *Env) emergency(fp, what string) {
 	buf := make([]byte, 1<<18)
 	n := runtime.Stack(buf, true)
 	var frames []string
@@ -461,7 +474,6 @@ func (e *Env) EngineStuck(what string) {
 			}
 		}
 	}
-	fp := e.PropID + "/engine-does-not-stop"
 	rf := map[string]any{"property": e.PropID, "seed": e.Seed, "decisions": e.Ch.Log, "fingerprint": fp, "emergency": true,
 		"detail": what + "; engine goroutines: " + strings.Join(frames, " | "), "config": e.Cfg, "trace": e.Sample, "history_tail": e.History()}
 	b, _ := json.MarshalIndent(rf, "", " ")
